@@ -23,7 +23,7 @@ for depth in range(0, 3):
     for parent, lst in facts.closure_signatures(F.j["bodies"], depth).items():
         clos[parent] = [e[1] for e in lst]
 funs = facts.function_signatures(F.j["bodies"])
-json.dump({"_comment": "parameter names (by position), closure use signatures (by closure number) and function signatures of the reference tree; aliases only, see engine/rules/core/facts.py", "params": out, "closures": clos, "functions": funs}, open(ref_path, "w"), indent=0, sort_keys=True)
+json.dump({"_comment": "parameter names (by position), closure use signatures (by closure number) and function signatures of the reference tree; aliases only, see engine/rules/core/facts.py", "params": out, "closures": clos, "functions": funs, "fields": facts.adt_fields(F.j["adts"])}, open(ref_path, "w"), indent=0, sort_keys=True)
 if os.path.exists(ref_path + ".old"):
     os.remove(ref_path + ".old")
 print("%d functions" % len(out))
